@@ -3,9 +3,16 @@ driven over a StringTransport by an `h2` client state machine; the reactor is a 
 iteration of _sendPrioritisedData is one step.  `priority` is absent from the sandbox: vendor/priority (round robin)
 is put on sys.path here, by the harness only.
 
-case = {"iw": w, "bodies": [[chunk lengths] per stream], "ops": [["adv"] | ["wu", k, inc] | ["iw", v] | ["mf", v]]}
-       k = 0: connection window, k >= 1: the k-th stream (id 2k-1).
-All requests are sent and answered (request.write per chunk, request.finish) before the first op.
+case = {"iw": w, "apps": [app per stream], "ops": [op ...]}
+  app = ["static", [chunk lengths]]      every chunk written and the response finished while the request is rendered
+      | ["manual", [chunk lengths]]      the history says when the next chunk is written / the response is finished
+      | ["producer", chunk, n]           IPushProducer registered on the request: writes chunks while not paused,
+                                         unregisters and finishes after the n-th
+  op  = ["adv"] one pending reactor call (one _sendPrioritisedData iteration) | ["wu", k, inc] | ["iw", v] | ["mf", v]
+      | ["write", k] | ["finish", k]     k = 0: connection window, k >= 1: the k-th stream (id 2k-1)
+All requests are sent (and rendered) before the first op.  After the history the peer grants whatever window is still
+missing (per stream only where the stream window is short, on the connection only where that one is short) and the
+reactor is pumped until quiescent: every written byte must have arrived and every finished response must be ended.
 """
 from __future__ import annotations
 
@@ -49,6 +56,38 @@ def _byte(k, pos):
     return (k * 37 + pos * 7 + (pos >> 8)) % 251
 
 
+def _apps(case):
+    if "apps" in case:
+        return case["apps"]
+    return [["static", b] for b in case["bodies"]]
+
+
+class _Windows:
+    """the peer's view of the server's send windows, from the schedule alone (shared by driver and oracle)"""
+
+    def __init__(self, iw, n):
+        self.iw, self.cw, self.mf = iw, 65535, 16384
+        self.sw = {k: iw for k in range(1, n + 1)}
+        self.done = set()
+
+    def op(self, op):
+        if op[0] == "wu":
+            if op[1] == 0:
+                self.cw += op[2]
+            elif op[1] in self.sw and op[1] not in self.done:
+                self.sw[op[1]] += op[2]
+        elif op[0] == "iw":
+            for k in self.sw:
+                if k not in self.done:
+                    self.sw[k] += op[1] - self.iw
+            self.iw = op[1]
+        elif op[0] == "mf":
+            self.mf = op[1]
+
+    def negative(self):
+        return any(self.sw[k] < 0 for k in self.sw if k not in self.done)
+
+
 def impl(case) -> str:
     if _VENDOR not in sys.path:
         sys.path.insert(0, _VENDOR)
@@ -60,18 +99,65 @@ def impl(case) -> str:
     from twisted.internet.testing import StringTransport
     from twisted.web import _http2, resource, server
 
-    bodies = case["bodies"]
+    apps = _apps(case)
+    n = len(apps)
+    frames = []       # DATA / END_STREAM seen by the client during the current op
+    pev = []          # producer calls during the current op
+    written = {k: 0 for k in range(1, n + 1)}
+    finished = set()
+    reqs = {}
+    prods = {}
+
+    def emit(k, request, ln):
+        pos = written[k]
+        written[k] += ln
+        request.write(bytes(_byte(k - 1, pos + j) for j in range(ln)))
+
+    class Prod:
+        def __init__(self, k, request, chunk, count):
+            self.k, self.request, self.chunk, self.count = k, request, chunk, count
+            self.sent, self.paused, self.done = 0, True, False
+
+        def run(self):
+            self.paused = False
+            while not self.paused and self.sent < self.count:
+                self.sent += 1
+                emit(self.k, self.request, self.chunk)
+            if self.sent == self.count and not self.done:
+                self.done = True
+                self.request.unregisterProducer()
+                finished.add(self.k)
+                self.request.finish()
+
+        def resumeProducing(self):
+            pev.append(f"R{2 * self.k - 1}")
+            self.run()
+
+        def pauseProducing(self):
+            pev.append(f"P{2 * self.k - 1}")
+            self.paused = True
+
+        def stopProducing(self):
+            self.paused = True
+            self.done = True
 
     class Body(resource.Resource):
         isLeaf = True
 
         def render_GET(self, request):
             k = int(request.args[b"k"][0])
-            pos = 0
-            for n in bodies[k]:
-                request.write(bytes(_byte(k, pos + j) for j in range(n)))
-                pos += n
-            request.finish()
+            app = apps[k - 1]
+            if app[0] == "static":
+                for ln in app[1]:
+                    emit(k, request, ln)
+                finished.add(k)
+                request.finish()
+            elif app[0] == "manual":
+                reqs[k] = [request, list(app[1])]
+            else:
+                p = prods[k] = Prod(k, request, app[1], app[2])
+                request.registerProducer(p, True)
+                p.run()
             return server.NOT_DONE_YET
 
     reactor = _StepReactor()
@@ -89,8 +175,8 @@ def impl(case) -> str:
 
     got = {}          # stream index -> received bytes
     ended = set()
-    frames = []       # events of the current op
     violations = []
+    win = _Windows(case["iw"], n)
 
     def pump():
         for _ in range(50):
@@ -104,7 +190,7 @@ def impl(case) -> str:
             if back:
                 try:
                     evs = cl.receive_data(back)
-                except h2.exceptions.FlowControlError as e:
+                except h2.exceptions.FlowControlError:
                     violations.append("client-FlowControlError")
                     return
                 for e in evs:
@@ -113,22 +199,31 @@ def impl(case) -> str:
                             continue        # the empty DATA frame that carries END_STREAM
                         k = (e.stream_id + 1) // 2
                         got.setdefault(k, bytearray()).extend(e.data)
+                        win.sw[k] -= len(e.data)
+                        win.cw -= len(e.data)
                         frames.append(f"d{e.stream_id}:{len(e.data)}")
                     elif isinstance(e, h2.events.StreamEnded):
-                        ended.add((e.stream_id + 1) // 2)
+                        k = (e.stream_id + 1) // 2
+                        ended.add(k)
+                        win.done.add(k)
                         frames.append(f"e{e.stream_id}")
         raise AssertionError("pump did not quiesce")
 
+    def obs():
+        if not frames and not pev:
+            return "-"
+        return ",".join(frames) + ("/" + ",".join(pev) if pev else "")
+
     pump()
-    for k in range(len(bodies)):
-        cl.send_headers(2 * k + 1, [(b":method", b"GET"), (b":path", b"/?k=%d" % k), (b":scheme", b"http"),
+    for k in range(1, n + 1):
+        cl.send_headers(2 * k - 1, [(b":method", b"GET"), (b":path", b"/?k=%d" % k), (b":scheme", b"http"),
                                     (b":authority", b"x")], end_stream=True)
     pump()
-    setup = ",".join(frames)
-    out = []
+    out = [obs()]
     dead = None
     for op in case["ops"]:
         del frames[:]
+        del pev[:]
         if violations:
             # the h2 client has torn the connection down (it raised FlowControlError on what the server sent)
             out.append("-")
@@ -140,48 +235,76 @@ def impl(case) -> str:
                 k = op[1]
                 if k == 0:
                     cl.increment_flow_control_window(op[2])
-                elif k <= len(bodies) and k not in ended:
+                    win.op(op)
+                elif k <= n and k not in ended:
                     cl.increment_flow_control_window(op[2], 2 * k - 1)
+                    win.op(op)
             elif op[0] == "iw":
                 cl.update_settings({h2.settings.SettingCodes.INITIAL_WINDOW_SIZE: op[1]})
+                win.op(op)
             elif op[0] == "mf":
                 cl.update_settings({h2.settings.SettingCodes.MAX_FRAME_SIZE: op[1]})
+            elif op[0] == "write":
+                r = reqs.get(op[1])
+                if r and r[1] and op[1] not in finished:
+                    emit(op[1], r[0], r[1].pop(0))
+            elif op[0] == "finish":
+                r = reqs.get(op[1])
+                if r and op[1] not in finished:
+                    finished.add(op[1])
+                    r[0].finish()
             pump()
         except h2.exceptions.FlowControlError:
             # raised inside the server's sending loop (h2 refuses to exceed the window): the loop is not rescheduled
             dead = dead or "X:FlowControlError"
             frames.append("X:FlowControlError")
             pump()
-        out.append(",".join(frames) or "-")
-    # afterwards: open every window and let the loop run; every body must arrive complete and in order
+        out.append(obs())
+    # afterwards: the peer grants what is still missing and the reactor is pumped until quiescent
     del frames[:]
+    del pev[:]
     try:
         if violations:
             raise h2.exceptions.FlowControlError()
-        cl.increment_flow_control_window(2 ** 30)
-        for k in range(1, len(bodies) + 1):
-            if k not in ended:
-                cl.increment_flow_control_window(2 ** 30, 2 * k - 1)
+        need = {}
+        for k in range(1, n + 1):
+            if k in ended:
+                continue
+            todo = written[k] - len(got.get(k, b""))
+            if k in prods:
+                todo += (prods[k].count - prods[k].sent) * prods[k].chunk
+            need[k] = todo
+            if win.sw[k] < todo + 1:
+                cl.increment_flow_control_window(todo + 1000 - win.sw[k], 2 * k - 1)
+                win.sw[k] = todo + 1000
+        total = sum(need.values())
+        if win.cw < total + 1:
+            cl.increment_flow_control_window(total + 1000 - win.cw)
+            win.cw = total + 1000
         pump()
-        for _ in range(20000):
+        for _ in range(200 + 4 * n + total // 1000):
             if not reactor.step():
                 break
             pump()
-            if len(ended) == len(bodies):
-                break
     except h2.exceptions.FlowControlError:
         dead = dead or ("X:FlowControlError-late" if not violations else None)
     final = []
-    for k in range(len(bodies)):
-        want = bytes(_byte(k, j) for j in range(sum(bodies[k])))
-        have = bytes(got.get(k + 1, b""))
-        if have == want and (k + 1) in ended:
-            final.append("ok")
-        elif want.startswith(have):
-            final.append(f"short{len(have)}/{len(want)}" + ("" if (k + 1) in ended else "-open"))
-        else:
+    for k in range(1, n + 1):
+        want = bytes(_byte(k - 1, j) for j in range(written[k]))
+        have = bytes(got.get(k, b""))
+        if k in prods and not prods[k].done:
+            final.append(f"producer-stalled{prods[k].sent}/{prods[k].count}")
+        elif not want.startswith(have) or len(have) > len(want):
             final.append("corrupt")
-    return " ".join(out) + " #" + (setup or "-") + " " + ",".join(final) + ("" if not violations else " " + violations[0]) \
+        elif have != want:
+            final.append(f"short{len(have)}/{len(want)}")
+        elif k in finished and k not in ended:
+            final.append("noend")
+        elif k in ended and k not in finished:
+            final.append("ended-unfinished")
+        else:
+            final.append("ok")
+    return " ".join(out) + " #" + ",".join(final) + ("" if not violations else " " + violations[0]) \
         + ("" if not dead else " " + dead)
 
 
@@ -190,74 +313,78 @@ def impl(case) -> str:
 
 def oracle(case, obs):
     body, _, tail = obs.partition(" #")
-    steps = body.split(" ") if case["ops"] else []
-    if len(steps) != len(case["ops"]):
+    steps = body.split(" ")
+    if len(steps) != len(case["ops"]) + 1:
         return Failure(case, "malformed log", "log")
-    n = len(case["bodies"])
-    iw = case["iw"]
-    swin = {k: iw for k in range(1, n + 1)}
-    cwin = 65535
-    mf = 16384
-    done = set()
+    apps = _apps(case)
+    n = len(apps)
+    win = _Windows(case["iw"], n)
     neg_seen = False
-    parts = tail.split(" ")
-    setup = parts[0]
-    if setup != "-":
-        return Failure(case, "DATA sent before the sending loop ran: " + setup, "data-at-setup")
-    for i, (op, st) in enumerate(zip(case["ops"], steps)):
+    if any(e and e[0] in "dex" for e in steps[0].partition("/")[0].split(",")):
+        return Failure(case, "DATA sent before the sending loop ran: " + steps[0], "data-at-setup")
+    for i, (op, st) in enumerate(zip(case["ops"], steps[1:])):
         where = f"op {i} {op}: "
-        if op[0] == "wu":
-            if op[1] == 0:
-                cwin += op[2]
-            elif op[1] in swin and op[1] not in done:
-                swin[op[1]] += op[2]
-        elif op[0] == "iw":
-            for k in swin:
-                if k not in done:
-                    swin[k] += op[1] - iw
-            iw = op[1]
-        elif op[0] == "mf":
-            mf = op[1]
-        if any(swin[k] < 0 for k in swin if k not in done):
+        if not (op[0] == "wu" and op[1] != 0 and op[1] in win.done):
+            win.op(op)
+        if win.negative():
             neg_seen = True
-        for e in ([] if st == "-" else st.split(",")):
+        fr = st.partition("/")[0]
+        for e in ([] if fr in ("-", "") else fr.split(",")):
             if e.startswith("X:"):
-                neg = any(swin[k] < 0 for k in swin if k not in done) or cwin < 0
+                neg = win.negative() or win.cw < 0
                 return Failure(case, where + "the sending loop raised " + e[2:] + " and is never rescheduled"
                                + (" (a stream window is negative after a SETTINGS decrease)" if neg else ""),
                                "loop-dies-negative-window" if neg else "loop-dies")
             if e.startswith("d"):
                 sid, ln = e[1:].split(":")
                 k, ln = (int(sid) + 1) // 2, int(ln)
-                if ln > swin[k] or ln > cwin:
+                if ln > win.sw[k] or ln > win.cw:
                     return Failure(case, where + f"DATA of {ln} bytes on stream {sid} exceeds the window "
-                                   f"(stream {swin[k]}, connection {cwin})", "exceeds-window")
-                if ln > mf:
-                    return Failure(case, where + f"DATA of {ln} bytes exceeds max frame size {mf}", "exceeds-frame-size")
-                swin[k] -= ln
-                cwin -= ln
+                                   f"(stream {win.sw[k]}, connection {win.cw})", "exceeds-window")
+                if ln > win.mf:
+                    return Failure(case, where + f"DATA of {ln} bytes exceeds max frame size {win.mf}",
+                                   "exceeds-frame-size")
+                win.sw[k] -= ln
+                win.cw -= ln
             elif e.startswith("e"):
-                done.add((int(e[1:]) + 1) // 2)
+                win.done.add((int(e[1:]) + 1) // 2)
+    parts = tail.split(" ")
     if "client-FlowControlError" in tail:
         if neg_seen:
             return Failure(case, "the server sent a DATA frame (the empty END_STREAM one) on a stream whose window is "
                            "negative after a SETTINGS decrease; the h2 peer answers FlowControlError and drops the "
                            "connection", "end-stream-on-negative-window")
         return Failure(case, "the h2 client saw DATA beyond its window", "exceeds-window")
-    finals = parts[1].split(",") if len(parts) > 1 and parts[1] else []
+    finals = parts[0].split(",") if parts and parts[0] else []
     for k, f in enumerate(finals):
-        if f != "ok":
-            neg = "X:" in tail
-            return Failure(case, f"after opening all windows, stream {2 * k + 1} body is {f}"
-                           + (" (the sending loop had died)" if neg else ""),
-                           "loop-dies-negative-window" if neg else "body-" + f.split("/")[0].rstrip("0123456789"))
+        if f in ("ok",):
+            continue
+        sid = 2 * k + 1
+        if "X:" in tail:
+            return Failure(case, f"stream {sid} is {f} after the peer granted ample window (the sending loop had died)",
+                           "loop-dies-negative-window" if neg_seen else "loop-dies")
+        kind = apps[k][0]
+        what = {"noend": "finished but END_STREAM never sent",
+                "corrupt": "body bytes wrong or out of order",
+                "ended-unfinished": "END_STREAM sent before the application finished"}.get(f, f)
+        tag = ("producer-never-resumed" if f.startswith("producer-stalled") else
+               "finished-stream-never-completes" if f == "noend" else
+               "written-data-never-sent" if f.startswith("short") else "body-" + f)
+        if tag == "producer-never-resumed" and any(o[0] == "iw" for o in case["ops"]):
+            tag += "-after-settings-change"
+        return Failure(case, f"after the peer granted ample window on both levels and the reactor went quiescent, "
+                       f"stream {sid} ({kind}) is: {what}", tag)
     return None
 
 
-def _gen_case(rng, big):
+def _len_near(rng, target):
+    return max(1, target + rng.choice([-2, -1, 0, 0, 0, 1, 2]))
+
+
+def _gen_static(rng, big):
     n = rng.choice([1, 1, 2, 3, 4])
     iw = rng.choice([0, 1, 5, 10, 50, 100, 1000, 20000, 65535])
-    bodies = []
+    apps = []
     for _ in range(n):
         style = rng.random()
         if style < 0.5:
@@ -266,47 +393,167 @@ def _gen_case(rng, big):
             chunks = [max(1, iw + rng.randrange(-2, 3)) for _ in range(rng.randrange(1, 4))]
         else:
             chunks = [rng.randrange(1, big) for _ in range(rng.randrange(1, 3))]
-        bodies.append(chunks)
+        apps.append(["static", chunks])
     if rng.random() < 0.15:
-        # enough data to exhaust the connection window
-        bodies = [[rng.randrange(20000, 40000)] for _ in range(rng.randrange(2, 5))]
+        apps = [["static", [rng.randrange(20000, 40000)]] for _ in range(rng.randrange(2, 5))]
         iw = rng.choice([65535, 30000, 100000])
+    return iw, apps
+
+
+def _rand_ops(rng, n, iw, length, manual, decrease_ok=True):
     ops = []
-    cur_iw = iw
-    decrease_ok = rng.random() < 0.5
-    for _ in range(rng.randrange(3, 40)):
+    cur = iw
+    for _ in range(length):
+        r = rng.random()
+        if r < 0.45:
+            ops.append(["adv"])
+        elif r < 0.60:
+            ops.append(["wu", rng.randrange(0, n + 1), rng.choice([1, 2, 5, 10, 100, 1000, 16384, 40000, 65535])])
+        elif r < 0.72:
+            v = rng.choice([0, 1, 5, 10, 50, 100, 1000, 20000, 65535, 100000, max(0, cur - rng.randrange(1, 20)),
+                            cur + rng.randrange(1, 20)])
+            if v < cur and not decrease_ok:
+                v = cur + rng.choice([0, 1, 10])
+            cur = v
+            ops.append(["iw", v])
+        elif r < 0.76:
+            ops.append(["mf", rng.choice([16384, 16385, 20000, 65536])])
+        elif manual and r < 0.92:
+            ops.append(["write", rng.choice(manual)])
+        elif manual:
+            ops.append(["finish", rng.choice(manual)])
+        else:
+            ops.append(["adv"])
+    return ops
+
+
+def _gen_mixed(rng):
+    """manual and producer-driven responses whose sizes hit the windows exactly"""
+    n = rng.choice([1, 2, 2, 3])
+    connlimited = rng.random() < 0.4
+    iw = (1 << 24) if connlimited else rng.choice([4, 10, 50, 100, 1000, 6500])
+    apps, manual = [], []
+    room = 65535
+    for k in range(1, n + 1):
+        r = rng.random()
+        limit = room if connlimited else iw
+        if r < 0.3:
+            sz = rng.randrange(1, 2000) if connlimited else _len_near(rng, iw)
+            apps.append(["static", [sz]])
+            room -= min(sz, room)
+        elif r < 0.65:
+            m = rng.choice([1, 2, 5, 10])
+            chunk = max(1, limit // m) if limit > 0 else rng.randrange(1, 50)
+            if rng.random() < 0.3:
+                chunk = _len_near(rng, chunk)
+            apps.append(["producer", min(chunk, 20000), rng.choice([m, m + 1, 2 * m, 2 * m + 3])])
+            room = 0
+        else:
+            first = max(1, limit) if rng.random() < 0.6 else _len_near(rng, max(1, limit))
+            chunks = [min(first, 30000)] + [rng.randrange(1, 40) for _ in range(rng.randrange(0, 3))]
+            apps.append(["manual", chunks])
+            manual.append(k)
+    ops = []
+    for k in manual:
+        if rng.random() < 0.8:
+            ops.append(["write", k])
+    ops += [["adv"]] * rng.randrange(0, 2 * n + 6)
+    ops += _rand_ops(rng, n, iw, rng.randrange(2, 25), manual)
+    if rng.random() < 0.5:
+        ops += [["wu", 0, 65535]] + [["adv"]] * rng.randrange(0, 8)
+    return {"iw": iw, "apps": apps, "ops": ops}
+
+
+def _gen_finish_while_negative(rng):
+    b = rng.choice([4, 10, 100, 1000])
+    low = rng.randrange(0, b)
+    ops = [["write", 1]] + [["adv"]] * rng.randrange(1, 4) + [["iw", low]] + [["adv"]] * rng.randrange(0, 2)
+    ops += [["finish", 1]] if rng.random() < 0.8 else [["write", 1], ["finish", 1]]
+    ops += [["adv"]] * rng.randrange(0, 3)
+    ops += rng.choice([[["wu", 1, b + 20]], [["iw", b + 50]], []])
+    ops += [["adv"]] * rng.randrange(0, 4)
+    return {"iw": b, "apps": [["manual", [b, rng.randrange(1, 9)]]], "ops": ops}
+
+
+def _gen_conn_limited_producer(rng):
+    """huge stream windows, so only the 65535-byte connection window limits: a producer whose first burst fills it
+    exactly (65535 = 3*5*17*257), is paused and drains; then (mostly) connection-level-only WINDOW_UPDATEs.  Other
+    streams are manual and write later, so that the producer's queue can drain completely."""
+    m = rng.choice([1, 3, 5, 15, 17, 51, 85])
+    chunk = 65535 // m
+    if rng.random() < 0.2:
+        chunk = _len_near(rng, chunk)
+    apps = [["producer", chunk, rng.choice([m + 1, m + 2, 2 * m, 2 * m + 1])]]
+    manual = []
+    if rng.random() < 0.4:
+        apps.append(["manual", [rng.randrange(1, 3000) for _ in range(rng.randrange(1, 3))]])
+        manual.append(2)
+        if rng.random() < 0.5:
+            apps.reverse()
+            manual = [1]
+    frames = m * (-(-chunk // 16384))
+    ops = [["adv"]] * rng.randrange(max(0, frames - 2), frames + 6)
+    tail = []
+    for _ in range(rng.randrange(0, 4)):
         r = rng.random()
         if r < 0.6:
-            ops.append(["adv"])
-        elif r < 0.8:
-            k = rng.randrange(0, len(bodies) + 1)
-            ops.append(["wu", k, rng.choice([1, 2, 5, 10, 100, 1000, 16384, 40000])])
+            tail.append(["wu", 0, rng.choice([65535, 65535, 100, chunk, 2 * chunk])])
+        elif r < 0.75 and manual:
+            tail.append(["write", manual[0]])
+        elif r < 0.85 and manual:
+            tail.append(["finish", manual[0]])
         elif r < 0.93:
-            v = rng.choice([0, 1, 5, 10, 50, 100, 1000, 20000, 65535, 100000])
-            if v < cur_iw and not decrease_ok:
-                v = cur_iw + rng.choice([0, 1, 10])
-            cur_iw = v
-            ops.append(["iw", v])
+            tail.append(["wu", len(apps) - manual[0] + 1 if manual else 1, rng.choice([1, 1000])])
         else:
-            ops.append(["mf", rng.choice([16384, 16385, 20000, 65536])])
-    return {"iw": iw, "bodies": bodies, "ops": ops}
+            tail.append(["iw", (1 << 24) + rng.choice([-1000, 1000])])
+        tail += [["adv"]] * rng.randrange(0, 6)
+    return {"iw": 1 << 24, "apps": apps, "ops": ops + tail}
 
 
 def gen(rng, tier):
-    return [_gen_case(rng, 2000) for _ in range(300 if tier == "quick" else 8000)]
+    cases = []
+    q = tier == "quick"
+    for _ in range(200 if q else 5000):
+        iw, apps = _gen_static(rng, 2000)
+        n = len(apps)
+        cases.append({"iw": iw, "apps": apps, "ops": _rand_ops(rng, n, iw, rng.randrange(3, 40), [],
+                                                               decrease_ok=rng.random() < 0.5)})
+    for _ in range(250 if q else 6000):
+        cases.append(_gen_mixed(rng))
+    for _ in range(60 if q else 1000):
+        cases.append(_gen_finish_while_negative(rng))
+    for _ in range(60 if q else 1000):
+        cases.append(_gen_conn_limited_producer(rng))
+    return cases
 
 
 def corpus():
     return [
         # window exhausted, reopened by WINDOW_UPDATE on the stream and on the connection
-        {"iw": 100, "bodies": [[300]], "ops": [["adv"], ["adv"], ["wu", 1, 50], ["adv"], ["adv"], ["wu", 1, 1000], ["adv"],
-                                                ["adv"], ["adv"]]},
+        {"iw": 100, "apps": [["static", [300]]], "ops": [["adv"], ["adv"], ["wu", 1, 50], ["adv"], ["adv"],
+                                                         ["wu", 1, 1000], ["adv"], ["adv"], ["adv"]]},
         # SETTINGS decrease makes the stream window negative (RFC 7540 6.9.2) while data is queued
-        {"iw": 100, "bodies": [[300]], "ops": [["adv"], ["iw", 40], ["adv"], ["wu", 1, 1000], ["adv"], ["adv"], ["adv"]]},
+        {"iw": 100, "apps": [["static", [300]]], "ops": [["adv"], ["iw", 40], ["adv"], ["wu", 1, 1000], ["adv"],
+                                                         ["adv"], ["adv"]]},
         # two streams, connection window exhausted
-        {"iw": 65535, "bodies": [[40000], [40000]], "ops": [["adv"]] * 6 + [["wu", 0, 30000]] + [["adv"]] * 6},
+        {"iw": 65535, "apps": [["static", [40000]], ["static", [40000]]],
+         "ops": [["adv"]] * 6 + [["wu", 0, 30000]] + [["adv"]] * 6},
         # window opened by SETTINGS only
-        {"iw": 0, "bodies": [[10, 10]], "ops": [["adv"], ["adv"], ["iw", 15], ["adv"], ["adv"], ["adv"], ["adv"]]},
+        {"iw": 0, "apps": [["static", [10, 10]]], "ops": [["adv"], ["adv"], ["iw", 15], ["adv"], ["adv"], ["adv"],
+                                                          ["adv"]]},
+        # the body filled the window exactly, the sender parks, SETTINGS makes the window negative, the application
+        # finishes, the peer reopens the window
+        {"iw": 10, "apps": [["manual", [10]]], "ops": [["write", 1], ["adv"], ["adv"], ["iw", 4], ["finish", 1],
+                                                       ["adv"], ["wu", 1, 20], ["adv"], ["adv"]]},
+        # connection window is the limit: a producer fills it exactly, is paused, its queue drains; only a
+        # connection-level WINDOW_UPDATE follows
+        {"iw": 1 << 24, "apps": [["producer", 13107, 12]],
+         "ops": [["adv"]] * 7 + [["wu", 0, 65535]] + [["adv"]] * 4},
+        {"iw": 1 << 24, "apps": [["static", [535]], ["producer", 6500, 20]],
+         "ops": [["adv"]] * 14 + [["wu", 0, 65535]] + [["adv"]] * 4},
+        # data written at an exhausted window while the sender is parked, then the window is reopened
+        {"iw": 10, "apps": [["manual", [10, 5]]], "ops": [["write", 1], ["adv"], ["adv"], ["write", 1], ["wu", 1, 20],
+                                                          ["adv"], ["adv"]]},
     ]
 
 
@@ -318,19 +565,40 @@ def to_coq(case):
             return f"WU {0 if o[1] == 0 else 2 * o[1] - 1}%nat ({o[2]})%Z"
         if o[0] == "iw":
             return f"SetIW ({o[1]})%Z"
-        return f"SetMF ({o[1]})%Z"
+        if o[0] == "mf":
+            return f"SetMF ({o[1]})%Z"
+        if o[0] == "write":
+            return f"AppWrite {2 * o[1] - 1}%nat"
+        return f"AppFinish {2 * o[1] - 1}%nat"
 
-    bodies = coq_list([coq_list([f"({n})%Z" for n in b], "Z") for b in case["bodies"]], "(list Z)")
-    return f"(({case['iw']})%Z, {bodies}, {coq_list([op(o) for o in case['ops']], 'op')})"
+    def app(a):
+        if a[0] == "producer":
+            return f"Producer ({a[1]})%Z {a[2]}%nat"
+        return ("Static " if a[0] == "static" else "Manual ") + coq_list([f"({x})%Z" for x in a[1]], "Z")
+
+    return (f"(({case['iw']})%Z, {coq_list([app(a) for a in _apps(case)], 'application')}, "
+            f"{coq_list([op(o) for o in case['ops']], 'op')})")
 
 
 def shrink(case):
     ops = case["ops"]
     for i in range(len(ops)):
         yield {**case, "ops": ops[:i] + ops[i + 1:]}
-    b = case["bodies"]
-    if len(b) > 1:
-        yield {**case, "bodies": b[:-1], "ops": [o for o in ops if not (o[0] == "wu" and o[1] == len(b))]}
+    a = _apps(case)
+    if len(a) > 1:
+        k = len(a)
+        yield {"iw": case["iw"], "apps": a[:-1],
+               "ops": [o for o in ops if not (o[0] in ("wu", "write", "finish") and o[1] == k)]}
+
+
+def _hist(c, o):
+    kinds = sorted({a[0] for a in _apps(c)})
+    return "+".join(kinds) + (" iw-change" if any(x[0] == "iw" for x in c["ops"]) else "")
+
+
+def _model_view(a):
+    """the model prints frames and producer calls of one step as two groups, like the driver"""
+    return a.partition(" #")[0]
 
 
 SPEC = Spec(
@@ -339,23 +607,28 @@ SPEC = Spec(
     coq_header="From C29 Require Import Model Run.",
     coq_fn="run_show",
     to_coq=to_coq,
-    model_equal=lambda c, a, b: a.partition(" #")[0] == b,
+    model_equal=lambda c, a, b: _model_view(a) == b,
     nontrivial=lambda c, o: "d" in o.partition(" #")[0],
-    histogram=lambda c, o: f"{len(c['bodies'])} stream(s)" + (" iw-decrease" if any(
-        x[0] == "iw" for x in c["ops"]) else ""),
-    rule="random schedules of 3-39 ops (one _sendPrioritisedData iteration / WINDOW_UPDATE on a stream or the "
-         "connection / SETTINGS_INITIAL_WINDOW_SIZE change, increases and decreases / SETTINGS_MAX_FRAME_SIZE) over "
-         "1-4 concurrent streams whose responses are 1-4 chunks of 1-2000 bytes (chunks at initial window +-2; 15% with "
-         "20-40 KB bodies that exhaust the connection window), initial window in {0,1,5,10,50,100,1000,20000,65535}; "
-         "afterwards all windows are opened and every body must arrive complete and in order; non-trivial = DATA was "
-         "sent during the schedule",
-    trusted=["hand-written model coq/C29/Model.v (tied by this correspondence run only); it models the REPAIRED loop "
-             "(fixes/C29-negative-window.patch)",
+    histogram=_hist,
+    rule="four generators: (1) static responses (1-4 streams, 1-4 chunks of 1-2000 bytes, chunks at the initial window "
+         "+-2, 15% with 20-40 KB bodies that exhaust the connection window) under random schedules of 3-39 ops; (2) "
+         "mixed static / manual / push-producer responses whose sizes hit the stream window or the remaining "
+         "connection window exactly (+-2), with writes and finish placed in the history; (3) finish while a SETTINGS "
+         "decrease has the window negative, then reopen by WINDOW_UPDATE, by SETTINGS, or not at all; (4) a producer "
+         "that fills the connection window exactly, then connection-level-only WINDOW_UPDATE.  Ops: one "
+         "_sendPrioritisedData iteration / WINDOW_UPDATE (stream, connection) / SETTINGS_INITIAL_WINDOW_SIZE up and "
+         "down / SETTINGS_MAX_FRAME_SIZE / application write / finish.  After every history the peer grants only the "
+         "window that is still missing (per level) and the reactor is pumped until quiescent: every written byte must "
+         "have arrived in order and every finished response must be ended.  non-trivial = DATA was sent during the "
+         "schedule",
+    trusted=["hand-written model coq/C29/Model.v (tied by this correspondence run only)",
              "h2 4.x (server-side window bookkeeping, framing) and the h2 client state machine in the harness",
              "vendor/priority: round-robin stand-in for the absent `priority` package (harness only)",
-             "one-call-per-step reactor stub; StringTransport"],
-    assumptions=["all responses are written and finished before the sending loop first runs; no IPushProducer on the "
-                 "request (H2Stream.windowUpdated / flowControlBlocked producer branches not exercised)",
-                 "windows stay below 2^31-1"],
+             "one-call-per-step reactor stub; StringTransport; scripted applications / push producer"],
+    assumptions=["all requests arrive before the sending loop first runs; no request bodies; the transport never "
+                 "pauses the connection (_consumerBlocked)",
+                 "windows stay below 2^31-1",
+                 "liveness (completion after ample window) is checked on the implementation by the oracle, it is not a "
+                 "theorem of the model"],
     case_timeout=60.0,
 )
